@@ -251,7 +251,8 @@ SPECS = {
 
 BIG = [4503599627370497.0, 9007199254740991.0, 4611686018427387904.0, 1e19, 1e300]
 TINY = [1e-20, 5e-324]
-REPS_WIDE = REPS + BIG + [-x for x in BIG] + TINY + [-x for x in TINY] + [float("inf"), float("-inf"), float("nan")]
+NEG_NAN = math.copysign(float("nan"), -1.0)       # a NaN with the sign bit set: only signbit / copysign can tell it from +NaN
+REPS_WIDE = REPS + BIG + [-x for x in BIG] + TINY + [-x for x in TINY] + [float("inf"), float("-inf"), float("nan"), NEG_NAN]
 
 
 def check_helper(f, ident, int_return=False, helpers=None, gcem=None, reps=None):
